@@ -91,10 +91,10 @@ TRIGGERS = {
     "dev": ["dev_hit", "dev_hit", "dev_hit2", "dev_cnt_enable", "dev_cnt_disable", "dev_cnt_restart", "dev_acc_1",
             "dev_acc_2", "dev_t_pause", "dev_t_add", "dev_t_restart", "dev_t_stop", "dev_t_start", "dev_t_reset",
             "dev_t2_start", "dev_t2_jump"],
-    "coded": ["coded_ping", "coded_later", "coded_later"],
+    "coded": ["coded_ping", "coded_later", "coded_later", "coded_watch"],
 }
 ALL_TRIGGERS = sorted(set(sum(TRIGGERS.values(), [])))
-SWITCHES = ["s_code", "s_left", "s_right"]
+SWITCHES = ["s_code", "s_code", "s_left", "s_right", "s_misc"]
 
 
 # ------------------------------------------------------------------------------------------------------------
